@@ -1,8 +1,9 @@
 CONSTANTS
   Runs = {"A", "B"}
+  Shared = {"A2"}
   MaxRows = 2
   MaxSaves = 3
-  AppendInPlace = TRUE
+  AppendInPlace = "always"
   Crashes = FALSE
   CrossCheck = FALSE
   SqlDeleteInTxn = TRUE
